@@ -70,17 +70,20 @@ type caseT struct {
 
 type config struct{ T, P []string }
 
-var configs = func() []config {
+func buildConfigs(thorough bool) []config {
 	ts := [][]string{{tNames[0]}, {tNames[0], tNames[1]}, {tNames[1], tNames[0]}, {tNames[0], tNames[1], tNames[2]}, {tNames[2], tNames[1], tNames[0]}, {}}
-	ps := [][]string{{pNames[0]}, {pNames[0], pNames[1]}, {}}
+	ps := [][]string{{pNames[0], pNames[1]}, {pNames[0]}, {}}
 	var out []config
 	for _, t := range ts {
-		for _, p := range ps {
-			out = append(out, config{t, p})
+		for pi, p := range ps {
+			// quick: every TraceNames list with both parent fields, plus the two other ParentNames lists with one TraceNames list
+			if thorough || pi == 0 || len(t) == 2 && t[0] == tNames[0] {
+				out = append(out, config{t, p})
+			}
 		}
 	}
 	return out
-}()
+}
 
 var paths = []string{"msgpack-batch/str-keys", "msgpack-batch/bin-keys", "json-batch", "json-single(map)", "msgpack-single(map)"}
 
@@ -263,6 +266,7 @@ func num(v any) (int, bool) {
 func main() {
 	r := ev.New("C21", "exploration")
 	cases := buildCases(r.Thorough())
+	configs := buildConfigs(r.Thorough())
 	workers := 16
 	pool := make(chan *pipeline.Node, workers)
 	for i := 0; i < workers; i++ {
@@ -417,6 +421,12 @@ func main() {
 		if isMapPath(jb.path) {
 			pathClass = "map"
 		}
+		localDistinct := map[string]struct{}{}
+		defer func() {
+			for k := range localDistinct {
+				r.Distinct("distinct_nontrivial", k)
+			}
+		}()
 		for _, i := range active {
 			c := cases[i]
 			wb, wid, wroot := reference(cfg, c)
@@ -440,6 +450,8 @@ func main() {
 			}
 			class := "single-id-source"
 			switch {
+			case nonEmptyT >= 2 && c.vals[0] == empty:
+				class = "several-trace-fields+empty-meta.trace_id"
 			case nonEmptyT >= 2 && c.vals[0] != str:
 				class = "several-configured-trace-fields-set"
 			case c.vals[0] == empty && nonEmptyT >= 1:
@@ -455,9 +467,9 @@ func main() {
 				f = &failure{aspect: "root", want: fmt.Sprint(wroot), got: fmt.Sprint(o.root)}
 			}
 			if wb {
-				r.Distinct("distinct_nontrivial", fmt.Sprintf("%s|id=%s|root=%v|%s", pathClass, wid, wroot, class))
+				localDistinct[fmt.Sprintf("%s|id=%s|root=%v|%s", pathClass, wid, wroot, class)] = struct{}{}
 			} else {
-				r.Distinct("distinct_nontrivial", pathClass+"|not-a-trace|"+class)
+				localDistinct[pathClass+"|not-a-trace|"+class] = struct{}{}
 			}
 			if f != nil {
 				f.cfg, f.c, f.path = cfg, c, jb.path
